@@ -512,7 +512,7 @@ pub mod sweeps {
 use vstd::prelude::*;
 #[derive(Copy)] pub struct PaymentHash(pub [u8; 32]);
 #[derive(Copy)] pub struct PrevHop { pub id: u64 }
-#[derive(Clone, Copy)] pub struct Part { pub prev_hop: PrevHop, pub cltv_expiry: u32, pub value: u64, pub timer_ticks: u8 }
+#[derive(Clone, Copy)] pub struct Part { pub prev_hop: PrevHop, pub cltv_expiry: u32, pub value: u64, pub timer_ticks: u8, pub total_value_received: Option<u64> }
 #[derive(Clone, Copy)] pub struct Claimable { pub mpp_part: Part }
 pub struct Fields { pub total_mpp_amount_msat: u64 }
 pub struct ClaimablePayment { pub htlcs: Vec<Claimable>, pub onion_fields: Fields }
@@ -531,6 +531,9 @@ pub open spec fn same_parts_modulo_ticks(a: Seq<Part>, b: Seq<Part>) -> bool {
 // R5: `check_mpp_timeout(payment.htlcs.iter_mut(), &payment.onion_fields)`
 #[verifier::external_body] pub fn check_mpp_timeout_of_parts(htlcs: &mut Vec<Part>, onion_fields: &Fields) -> (r: bool)
     ensures r == times_out(old(htlcs)@, onion_fields.total_mpp_amount_msat), same_parts_modulo_ticks(final(htlcs)@, old(htlcs)@) { unimplemented!() }
+// R6: `V.iter().all(|h| P)` (a statement a change may put in front of the timeout test): the closure carries P as its postcondition, the answer is tied to it per element
+#[verifier::external_body] pub fn all_of<T, F: Fn(&T) -> bool>(v: &Vec<T>, f: F) -> (r: bool)
+    ensures r ==> forall|k: int| 0 <= k < v@.len() ==> f.ensures((&#[trigger] v@[k],), true), !r ==> exists|k: int| 0 <= k < v@.len() && f.ensures((&#[trigger] v@[k],), false) { unimplemented!() }
 // R6: `V.drain(..)`: the elements in order, the vector left empty
 #[verifier::external_body] pub fn drain_all<T>(v: &mut Vec<T>) -> (r: Vec<T>) ensures r@ == old(v)@, final(v)@.len() == 0 { unimplemented!() }
 pub open spec fn receive_failure(h: Claimable, hash: PaymentHash) -> (HTLCSource, PaymentHash, HTLCHandlingFailureType) {
@@ -538,10 +541,11 @@ pub open spec fn receive_failure(h: Claimable, hash: PaymentHash) -> (HTLCSource
 }
 //@extract lightning/src/ln/channelmanager.rs :: impl ChannelManager :: fn timer_tick_occurred
 //@slice R15
-    self.claimable_payments.lock().unwrap().claimable_payments.retain( |payment_hash, payment| { if payment.htlcs.is_empty() { debug_assert!(false); return false; } let mpp_timeout = check_mpp_timeout( payment.htlcs.iter_mut().map(|htlc| &mut htlc.mpp_part), &payment.onion_fields, ); if $c:cond { timed_out_mpp_htlcs.extend(payment.htlcs.drain(..).map(|h| { $t:any })); } return $keep:seq; }, );
+    self.claimable_payments.lock().unwrap().claimable_payments.retain( |payment_hash, payment| { if payment.htlcs.is_empty() { debug_assert!(false); return false; } $pre:any let mpp_timeout = check_mpp_timeout( payment.htlcs.iter_mut().map(|htlc| &mut htlc.mpp_part), &payment.onion_fields, ); if $c:cond { timed_out_mpp_htlcs.extend(payment.htlcs.drain(..).map(|h| { $t:any })); } return $keep:seq; }, );
 //@with
     fn payment_kept_by_the_timer_tick(payment_hash: &PaymentHash, payment: &mut ClaimablePayment, timed_out_mpp_htlcs: &mut Vec<(HTLCSource, PaymentHash, HTLCHandlingFailureType)>) -> bool {
         if payment.htlcs.is_empty() { debug_assert!(false); return false; }
+        $pre
         let ghost before = payment.htlcs@; let ghost out0 = timed_out_mpp_htlcs@;
         let mpp_timeout = check_mpp_timeout_of_claimable(&mut payment.htlcs, &payment.onion_fields);
         if $c {
@@ -560,6 +564,10 @@ pub open spec fn receive_failure(h: Claimable, hash: PaymentHash) -> (HTLCSource
             }
         }
         return $keep; }
+//@rw R6 ?
+    payment.htlcs.iter().all(|$x:ident| $p:seq)
+//@with
+    all_of(&payment.htlcs, |$x: &Claimable| -> (b: bool) ensures b == ($p) { $p })
 //@ret r
 //@requires
     old(payment).htlcs@.len() > 0,
